@@ -673,7 +673,7 @@ func c33checkTrans(r *vrun.Run, tr *c33Trans, rp c33Replay, notes map[string]map
 	}
 	// (1) earlier elements are never modified
 	if len(after) < len(before) || !c33eq(after[:len(before)], before) {
-		r.Violate(mkey+": earlier argv elements modified by a later step", fmt.Sprintf("before %q after %q via %s", before, after, call), rp)
+		c33viol(r, mkey+": earlier argv elements modified by a later step", fmt.Sprintf("before %q after %q via %s", before, after, call), rp)
 		return nil, false
 	}
 	tail := after[len(before):]
@@ -681,13 +681,13 @@ func c33checkTrans(r *vrun.Run, tr *c33Trans, rp c33Replay, notes map[string]map
 	if term {
 		// Build()/Cache()/Blocking()/ReadOnly()/MultiGet() add nothing
 		if len(tail) != 0 {
-			r.Violate(mkey+": terminal changes argv", fmt.Sprintf("before %q after %q via %s", before, after, call), rp)
+			c33viol(r, mkey+": terminal changes argv", fmt.Sprintf("before %q after %q via %s", before, after, call), rp)
 		}
 		if tr.After.Ks != tr.Before.Ks {
-			r.Violate(mkey+": terminal changes the slot", fmt.Sprintf("ks %d -> %d via %s", tr.Before.Ks, tr.After.Ks, call), rp)
+			c33viol(r, mkey+": terminal changes the slot", fmt.Sprintf("ks %d -> %d via %s", tr.Before.Ks, tr.After.Ks, call), rp)
 		}
 		if tr.Before.Kind == 1 && tr.After.Cf != tr.Before.Cf {
-			r.Violate(mkey+": terminal changes the flags", fmt.Sprintf("cf %#x -> %#x via %s", tr.Before.Cf, tr.After.Cf, call), rp)
+			c33viol(r, mkey+": terminal changes the flags", fmt.Sprintf("cf %#x -> %#x via %s", tr.Before.Cf, tr.After.Cf, call), rp)
 		}
 		r.Outcome("terminal: argv, flags and slot carried over unchanged")
 		return nil, true
@@ -732,12 +732,12 @@ func c33checkTrans(r *vrun.Run, tr *c33Trans, rp c33Replay, notes map[string]map
 		for _, w := range want {
 			strict = append(strict, w[0])
 		}
-		r.Violate(mkey+": caller arguments missing, reordered or re-formatted", fmt.Sprintf("appended %q, expected the tokens %q in this order (keywords may be interleaved) via %s", tail, strict, call), rp)
+		c33viol(r, mkey+": caller arguments missing, reordered or re-formatted", fmt.Sprintf("appended %q, expected the tokens %q in this order (keywords may be interleaved) via %s", tail, strict, call), rp)
 		return nil, false
 	}
 	for _, k := range kw {
 		if strings.Contains(k, "{t}") {
-			r.Violate(mkey+": caller string duplicated or altered", fmt.Sprintf("appended %q contains an extra token %q derived from an argument via %s", tail, k, call), rp)
+			c33viol(r, mkey+": caller string duplicated or altered", fmt.Sprintf("appended %q contains an extra token %q derived from an argument via %s", tail, k, call), rp)
 			return nil, false
 		}
 	}
@@ -753,11 +753,11 @@ func c33checkTrans(r *vrun.Run, tr *c33Trans, rp c33Replay, notes map[string]map
 			}
 		}
 		if n != 1 || sub != 0 {
-			r.Violate(mkey+": caller string not exactly once verbatim", fmt.Sprintf("%q occurs %d times verbatim and %d times embedded in %q via %s", f, n, sub, after, call), rp)
+			c33viol(r, mkey+": caller string not exactly once verbatim", fmt.Sprintf("%q occurs %d times verbatim and %d times embedded in %q via %s", f, n, sub, after, call), rp)
 		}
 	}
 	if len(before) == 0 && len(kw) == 0 && tr.Before.Kind == 0 && tr.Step.M != "Arbitrary" {
-		r.Violate(mkey+": root method emits no command token", fmt.Sprintf("argv %q via %s", after, call), rp)
+		c33viol(r, mkey+": root method emits no command token", fmt.Sprintf("argv %q via %s", after, call), rp)
 	}
 	// (4) time units: the emitted option keyword must name the same unit as the method
 	for _, a := range tr.Step.A {
@@ -768,7 +768,7 @@ func c33checkTrans(r *vrun.Run, tr *c33Trans, rp c33Replay, notes map[string]map
 				ku = c33unitOf(kw[0])
 			}
 			if ku != mu {
-				r.Violate(mkey+": option keyword and method name disagree on the unit", fmt.Sprintf("method unit %q, keywords %q via %s", mu, kw, call), rp)
+				c33viol(r, mkey+": option keyword and method name disagree on the unit", fmt.Sprintf("method unit %q, keywords %q via %s", mu, kw, call), rp)
 			} else {
 				r.Outcome("time option in the unit of its keyword: " + mu)
 			}
@@ -784,16 +784,16 @@ func c33checkTrans(r *vrun.Run, tr *c33Trans, rp c33Replay, notes map[string]map
 	nstr := len(full)
 	switch {
 	case tr.After.Ks != unset && tr.After.Ks != set:
-		r.Violate(mkey+": slot is neither unset nor the CRC16 slot of the hash tag", fmt.Sprintf("ks=%d, want %d or %d via %s", tr.After.Ks, unset, set, call), rp)
+		c33viol(r, mkey+": slot is neither unset nor the CRC16 slot of the hash tag", fmt.Sprintf("ks=%d, want %d or %d via %s", tr.After.Ks, unset, set, call), rp)
 	case tr.Before.Kind != 0 && tr.Before.Ks == set && tr.After.Ks != set:
-		r.Violate(mkey+": slot forgotten", fmt.Sprintf("ks %d -> %d via %s", tr.Before.Ks, tr.After.Ks, call), rp)
+		c33viol(r, mkey+": slot forgotten", fmt.Sprintf("ks %d -> %d via %s", tr.Before.Ks, tr.After.Ks, call), rp)
 	case tr.After.Ks != tr.Before.Ks && nstr == 0 && tr.Before.Kind != 0:
-		r.Violate(mkey+": slot changed by a method without string argument", fmt.Sprintf("ks %d -> %d via %s", tr.Before.Ks, tr.After.Ks, call), rp)
+		c33viol(r, mkey+": slot changed by a method without string argument", fmt.Sprintf("ks %d -> %d via %s", tr.Before.Ks, tr.After.Ks, call), rp)
 	case c33keyNames[tr.Step.M] && nstr > 0 && tr.After.Ks != set:
 		if c33notKeys[mkey] {
 			r.Outcome("key-named method whose argument is not a routing key")
 		} else {
-			r.Violate(mkey+": key argument does not set the slot", fmt.Sprintf("ks stays %d, want %d (CRC16(\"t\") mod 16384 = %d) after %s; argv %q", tr.After.Ks, set, ref, call, after), rp)
+			c33viol(r, mkey+": key argument does not set the slot", fmt.Sprintf("ks stays %d, want %d (CRC16(\"t\") mod 16384 = %d) after %s; argv %q", tr.After.Ks, set, ref, call, after), rp)
 		}
 	case c33keyNames[tr.Step.M] && nstr > 0:
 		r.Outcome("key method sets the reference slot")
@@ -837,9 +837,27 @@ func c33sorted(m map[string]bool) string {
 	return strings.Join(ks, "; ")
 }
 
+// c33slotOnly selects which oracle family reports: false = the C33 argv rules, true = only the
+// slot rules (they belong to C18: "the slot of every built command equals the CRC16 slot of its key").
+var c33slotOnly bool
+
+func c33viol(r *vrun.Run, sig, detail string, rp any) {
+	if strings.Contains(sig, "slot") == c33slotOnly {
+		r.Violate(sig, detail, rp)
+	}
+}
+
 func TestVerif_C33(t *testing.T) {
-	vrun.Main(t, "C33", func(r *vrun.Run) {
-		r.Rule = "builder half of C33: BFS by reflection over the builder type graph (InitSlot and NoSlot builders, every exported method of every reachable step type, every canned value class per parameter type: unique {t}-tagged sentinel strings incl. one with space/CR/LF/quotes, variadics with 1,2,0 elements, int64 {10,0,-1,max,min}, uint64 {10,0,max}, float64/float32 {0.1,0,-0,1e21,1e-7,+Inf,-Inf,NaN}, durations {1.5s,-1.5s,0,999us,1d1h1m1.001s,500ms}, times {(1700000000,123ms),(0,0),(-1,500ms),(1,999999999ns),(253402300799,999ms)}, iter.Seq2 pairs); at every transition: argv prefix preserved, appended tokens = constant keywords + formatted arguments in call order, sentinels verbatim exactly once, keywords identical for all argument values of a method, time options in the unit of keyword and method name, slot rules; terminals carry argv/flags/slot over. non-trivial = transitions with at least one argument"
+	vrun.Main(t, "C33", func(r *vrun.Run) { c33main(r, false) })
+}
+
+func c33main(r *vrun.Run, slotOnly bool) {
+	c33slotOnly = slotOnly
+	{
+		const c33rule = "builder half of C33: BFS by reflection over the builder type graph (InitSlot and NoSlot builders, every exported method of every reachable step type, every canned value class per parameter type: unique {t}-tagged sentinel strings incl. one with space/CR/LF/quotes, variadics with 1,2,0 elements, int64 {10,0,-1,max,min}, uint64 {10,0,max}, float64/float32 {0.1,0,-0,1e21,1e-7,+Inf,-Inf,NaN}, durations {1.5s,-1.5s,0,999us,1d1h1m1.001s,500ms}, times {(1700000000,123ms),(0,0),(-1,500ms),(1,999999999ns),(253402300799,999ms)}, iter.Seq2 pairs); at every transition: argv prefix preserved, appended tokens = constant keywords + formatted arguments in call order, sentinels verbatim exactly once, keywords identical for all argument values of a method, time options in the unit of keyword and method name, slot rules; terminals carry argv/flags/slot over. non-trivial = transitions with at least one argument"
+		if !slotOnly {
+			r.Rule = c33rule
+		}
 		maxVisits := vrun.Pick(r, 2, 3)
 		r.Bounds["max_visits_of_a_type_per_path"] = maxVisits
 		r.Assume("only the builder half of C33 is checked here (recycling while in flight is checked elsewhere)")
@@ -857,7 +875,7 @@ func TestVerif_C33(t *testing.T) {
 			tr := c33run(rp.Path, rp.Step)
 			if tr == nil || tr.Panic != nil {
 				if tr != nil {
-					r.Violate(tr.Before.Type+"."+rp.Step.M+": panics in "+tr.Site, fmt.Sprint(tr.Panic), rp)
+					c33viol(r, tr.Before.Type+"."+rp.Step.M+": panics in "+tr.Site, fmt.Sprint(tr.Panic), rp)
 				}
 				return
 			}
@@ -868,7 +886,7 @@ func TestVerif_C33(t *testing.T) {
 				if tr2 != nil && tr2.Panic == nil {
 					kw2, ok2 := c33checkTrans(r, tr2, rp, notes)
 					if ok2 && !c33eq(kw, kw2) {
-						r.Violate(tr.Before.Type+"."+rp.Step.M+": keyword tokens depend on the argument values", fmt.Sprintf("%q vs %q", kw, kw2), rp)
+						c33viol(r, tr.Before.Type+"."+rp.Step.M+": keyword tokens depend on the argument values", fmt.Sprintf("%q vs %q", kw, kw2), rp)
 					}
 				}
 			}
@@ -890,7 +908,7 @@ func TestVerif_C33(t *testing.T) {
 					r.Outcome("Arbitrary misuse panic: " + msg)
 					return
 				}
-				r.Violate(mkey+": panics in "+tr.Site, msg+" via "+tr.Parent.String()+"."+tr.Step.M, rp)
+				c33viol(r, mkey+": panics in "+tr.Site, msg+" via "+tr.Parent.String()+"."+tr.Step.M, rp)
 				return
 			}
 			kw, ok := c33checkTrans(r, tr, rp, notes)
@@ -903,7 +921,7 @@ func TestVerif_C33(t *testing.T) {
 			} else if !c33eq(prev.kw, kw) {
 				o := prev.step
 				rp.Other = &o
-				r.Violate(mkey+": keyword tokens depend on the argument values", fmt.Sprintf("%q for %v but %q for %v", prev.kw, prev.step.A, kw, tr.Step.A), rp)
+				c33viol(r, mkey+": keyword tokens depend on the argument values", fmt.Sprintf("%q for %v but %q for %v", prev.kw, prev.step.A, kw, tr.Step.A), rp)
 			}
 			if r.WantSample() && len(tr.Step.A) > 1 {
 				r.Sample(map[string]any{"call": tr.Parent.String() + "." + tr.Step.M, "args": tr.Step.A, "before": tr.Before.Argv, "after": tr.After.Argv})
@@ -928,5 +946,5 @@ func TestVerif_C33(t *testing.T) {
 			r.Note(fmt.Sprintf("%s (%d): %s", c, len(notes[c]), c33sorted(notes[c])))
 		}
 		r.Note("float formatting observed: +Inf -> \"+Inf\", -Inf -> \"-Inf\", NaN -> \"NaN\", -0 -> \"-0\", 1e21 -> \"1000000000000000000000\", 1e-7 -> \"0.0000001\" (strconv 'f' -1 64). Redis parses doubles with strtod-like routines that accept inf/+inf/-inf case-insensitively and reject nan with an error, so nothing is misparsed")
-	})
+	}
 }
